@@ -72,6 +72,7 @@ type tlCase struct {
 	restartAt string // "" | before-conf | in-pay
 	lieBelow  bool   // backend reports a tip below the anchor at payment time
 	lieDelta  int    // ... exactly this many blocks below the anchor (0 = far below)
+	heightErrOnRetry int // the first n height lookups after a failed payment attempt return an error
 	legacy    bool   // protocol 6 record (Liquid)
 	bcastEarly bool  // the maker broadcasts right after the negotiation (after confGap blocks) and announces at start+preBlocks
 	confGap    int
@@ -122,6 +123,16 @@ func runTimelock(r *Run, seed int64, c tlCase, onAttempt func(w *sim.World, o *t
 	lie := false
 	announced := false
 	confirmed := false
+	heightErrLeft := c.heightErrOnRetry
+	node.Fault = func(op string) error {
+		// the chain backend fails the height lookups that follow a failed payment attempt (the new blocks are
+		// there all the same)
+		if op == c.chain+".height" && failed > 0 && heightErrLeft > 0 {
+			heightErrLeft--
+			return fmt.Errorf("injected: chain backend unavailable")
+		}
+		return nil
+	}
 	node.OnCrossing = func(k int64, op string) {
 		// blocks arrive right before a height lookup of the payment phase, so the node can see them
 		if confirmed && op == c.chain+".height" && c.mineRetry > 0 {
@@ -431,10 +442,13 @@ func TestC04(t *testing.T) {
 	rng := mrand.New(mrand.NewSource(r.Seed + 4))
 	n := r.N(260, 6000)
 	for i := 0; i < n; i++ {
-		c := tlCase{chain: "lbtc", role: pick(rng, "out-sender", "in-receiver"), cltv: pick(rng, int64(29), 29, 29, 29, 29, 29, 0, 1, 28, 30, 31, 32, 40, -1, 1<<31),
+		c := tlCase{chain: "lbtc", role: pick(rng, "out-sender", "in-receiver"), cltv: pick(rng, int64(29), 29, 29, 29, 29, 29, 29, 29, 29, 29, 29, 29, 0, 1, 28, 30, 31, 32, 40, -1, 1<<31, 1<<32, 1<<32+20, 1<<32+29, 1<<33+5, 1<<40+29),
 			preBlocks: pick(rng, 0, 0, 0, 1, 10, 30, 50, 55, 56, 57, 58, 59, 60, 61, 70), lateBlks: pick(rng, 0, 0, 0, 0, 0, 1, 10, 40, 57, 58, 59, 60, 70),
 			failFirst: pick(rng, 0, 0, 1, 3, 8), mineRetry: pick(rng, 0, 0, 0, 1, 1, 5, 20, 40),
 			restartAt: pick(rng, "", "", "", "before-conf", "in-pay", "before-announce"), lieBelow: rng.Intn(6) == 0, lieDelta: pick(rng, 0, 1, 1, 2, 3)}
+		if c.failFirst > 0 && rng.Intn(3) == 0 {
+			c.heightErrOnRetry = pick(rng, 1, 1, 2, 5)
+		}
 		if rng.Intn(4) == 0 {
 			// heights just below 2^32: start of the chain is 1000, leave room for the blocks of the case
 			room := uint32(c.preBlocks + c.lateBlks + 64 + c.failFirst*c.mineRetry + c.mineRetry)
@@ -534,6 +548,9 @@ func TestC05(t *testing.T) {
 			preBlocks: pick(rng, 0, 0, 1, 100, 400, 495, 499, 500, 501, 502, 503, 504, 505, 510), lateBlks: pick(rng, 0, 0, 0, 1, 3, 100, 400, 499, 500, 501, 502, 503),
 			failFirst: pick(rng, 0, 0, 1, 3), mineRetry: pick(rng, 0, 0, 1, 100, 250),
 			restartAt: pick(rng, "", "", "", "before-conf", "in-pay", "before-announce")}
+		if c.failFirst > 0 && rng.Intn(3) == 0 {
+			c.heightErrOnRetry = pick(rng, 1, 1, 2, 5)
+		}
 		if c.role == "out-sender" {
 			c.confEarly = pick(rng, 0, 0, 1, 2, 3)
 			if c.confEarly > 0 {
